@@ -75,8 +75,10 @@ class EngineListener:
         for i, v in enumerate(vs):
             d = self.m["idx"][v]
             o = self.m["off"][v]
-            out[i, 0] = box[d][0] + o
-            out[i, 1] = box[d][1] + o
+            # 32-bit views as the engine builds them (a bound that left the 32 bits - only a defective tree produces
+            # one - wraps there too; the run is judged by the other oracles, the monitor must survive it)
+            out[i, 0] = ((int(box[d][0]) + o + (1 << 31)) % (1 << 32)) - (1 << 31)
+            out[i, 1] = ((int(box[d][1]) + o + (1 << 31)) % (1 << 32)) - (1 << 31)
         return out
 
     def shadow_exec(self, k: int, box):
